@@ -10,14 +10,21 @@ SHRINK_LISTS, SHRINK_DICTS = ig.SHRINK_LISTS, ig.SHRINK_DICTS
 
 
 def gen_config(rng, tier):
-  s = {'USE_FLOW_CONTROL': True}
+  s = {'USE_FLOW_CONTROL': rng.random() < 0.7}
   if rng.random() < 0.3:
     s['PICKLE_RECEIVER_MAX_LENGTH'] = rng.choice([4096, 65536])
+  if rng.random() < 0.25:
+    s['MAX_RECEIVER_CONNECTIONS'] = rng.choice([1, 2, 3])
+  if rng.random() < 0.25:
+    s['METRIC_CLIENT_IDLE_TIMEOUT'] = rng.choice([5, 30])
   return {'daemon': 'cache', 'settings': s, 'files': {}}
 
 
 def cfg_sig(cfg):
-  return 'maxlen=%s' % cfg['settings'].get('PICKLE_RECEIVER_MAX_LENGTH', 'default')
+  s = cfg['settings']
+  return 'maxlen=%s fc=%s maxconn=%s idle=%s' % (
+    s.get('PICKLE_RECEIVER_MAX_LENGTH', 'default'), s.get('USE_FLOW_CONTROL'),
+    s.get('MAX_RECEIVER_CONNECTIONS', 'inf'), s.get('METRIC_CLIENT_IDLE_TIMEOUT'))
 
 
 def gen_plan(rng, cfg, tier):
@@ -36,7 +43,12 @@ def gen_plan(rng, cfg, tier):
     clients.append(c)
   for _ in range(nudp):
     clients.append(ig.build_udp_client(rng, rng.randint(1, 6), 0.0))
-  return {'prop': PROP, 'clients': clients, 'steps': ig.gen_steps(rng, clients)}
+  extra = []
+  for _ in range(rng.choice([0, 0, 1, 2])):
+    extra.append(rng.choice([['cachefull'], ['cachefull'], ['cachespace'], ['advance', 4.0], ['advance', 29.0]]))
+  plan = {'prop': PROP, 'clients': clients, 'steps': ig.gen_steps(rng, clients, extra)}
+  plan['late_connect'] = rng.random() < 0.6
+  return plan
 
 
 def nontrivial(res):
